@@ -13,10 +13,40 @@ use crate::{
 };
 use std::rc::Rc;
 
+// Terms in which every operator is stuck on a variable (so the normaliser has to rebuild it rather
+// than compute it): for every binary operator `x op y`, `x op 1`, `1 op x`, the negation, and the
+// same under a conditional.
+fn stuck_operator_terms() -> Vec<(String, M)> {
+    use crate::model::mterm::{Op, rc};
+    let x: Rc<str> = Rc::from("x");
+    let y: Rc<str> = Rc::from("y");
+    let lam2 = |body: M| M::Lam(x.clone(), false, rc(M::Int), rc(M::Lam(y.clone(), false, rc(M::Int), rc(body))));
+    let vx = || rc(M::Var(x.clone(), 1));
+    let vy = || rc(M::Var(y.clone(), 0));
+    let one = || rc(M::Lit(num_bigint::BigInt::from(1)));
+    let mut out = vec![];
+    for op in Op::ALL {
+        for (name, body) in [
+            (format!("x {} y", op.text()), M::Bin(op, vx(), vy())),
+            (format!("x {} 1", op.text()), M::Bin(op, vx(), one())),
+            (format!("1 {} y", op.text()), M::Bin(op, one(), vy())),
+        ] {
+            out.push((format!("(x : int) => (y : int) => {name}"), lam2(body.clone())));
+            if !op.is_arith() {
+                out.push((format!("(x : int) => (y : int) => if {name} then 1 else 2"), lam2(M::If(rc(body), one(), rc(M::Lit(num_bigint::BigInt::from(2)))))));
+            }
+        }
+    }
+    out.push(("(x : int) => (y : int) => -x".to_owned(), lam2(M::Neg(vx()))));
+    out.push(("(x : int) => (y : int) => -y".to_owned(), lam2(M::Neg(vy()))));
+    out
+}
+
 pub fn pair_sweeps(tier: Tier) -> Vec<Sweep> {
     let progs = sem::typed_programs(sem::typed_size(tier));
     let per_type = tier.pick(420, 1000);
     let mut out = vec![];
+    let mut groups: Vec<(String, Vec<(String, M)>)> = vec![("terms whose operators are stuck on variables".to_owned(), stuck_operator_terms())];
     for goal in crate::enumerate::typed::goals() {
         let terms: Vec<(String, M)> = progs
             .iter()
@@ -24,6 +54,21 @@ pub fn pair_sweeps(tier: Tier) -> Vec<Sweep> {
             .take(per_type)
             .filter_map(|(_, s)| surface::resolve(s, &[]).ok().map(|m| (surface::print(s), m)))
             .collect();
+        // implicitness is part of the judgement: add the implicit twin of the first lambdas / function types
+        let mut terms = terms;
+        let twins: Vec<(String, M)> = terms
+            .iter()
+            .filter_map(|(t, m)| match m {
+                M::Lam(n, i, a, b) => Some((format!("{t} [implicit twin]"), M::Lam(n.clone(), !*i, a.clone(), b.clone()))),
+                M::Pi(n, i, a, b) => Some((format!("{t} [implicit twin]"), M::Pi(n.clone(), !*i, a.clone(), b.clone()))),
+                _ => None,
+            })
+            .take(40)
+            .collect();
+        terms.extend(twins);
+        groups.push((format!("the {} smallest terms of type {}", terms.len(), goal.show()), terms));
+    }
+    for (gname, terms) in groups {
         let n = terms.len() as u64;
         if n < 2 {
             continue;
@@ -32,7 +77,7 @@ pub fn pair_sweeps(tier: Tier) -> Vec<Sweep> {
         let t2 = terms.clone();
         out.push(
             Sweep::new(
-                &format!("ordered pairs of the {n} smallest terms of type {}", goal.show()),
+                &format!("ordered pairs of {gname}"),
                 n * n,
                 move |idx| {
                     let (a_text, a) = &terms[(idx / n) as usize];
